@@ -29,8 +29,7 @@ MAX_REPORTED = 12          # VIOLATION lines / replay files written per run
 MAX_SAMPLES = 6
 
 
-class HarnessError(Exception):
-    pass
+from vlib.errors import HarnessError
 
 
 def jsonable(o):
